@@ -5,7 +5,7 @@ From V.c14 Require Import C14Model.
 From V.c15 Require Import C15Model.
 From V.c17 Require Import C17Spec C17Model C17TypedModel.
 From V.c18 Require Import C18Model.
-From V.c16 Require Import C16Model C16ParseModel C16AuxModel C16SeiNaluModel.
+From V.c16 Require Import C16Model C16ParseModel C16AuxModel C16SeiNaluModel C16ConfRecModel.
 Require Import ExtrOcamlBasic.
 Separate Extraction
   avc_get_nalus_from_sample avc_find_nalu_types avc_find_nalu_types_upto
@@ -18,6 +18,8 @@ Separate Extraction
   parse_cea608_p decode_registered_p extract_cea608_p decode_unregistered_p mdcv_decode_p cll_decode_p
   extract_sei_data_go C17TypedModel.tc_decode C17TypedModel.pt_decode
   avc_pt_of_sps avc_parse_sei_nalu hevc_parse_sei_nalu
+  avc_decode_dec_conf_rec hevc_decode_dec_conf_rec hevc_decode_full av1_decode_codec_conf_rec
+  hevc_arr_complete hevc_arr_type
   decode_adts_t C18Model.decode_asc
   C14Model.extract_nalus_from_byte_stream C14Model.to_nalu_sample C14Model.avc_get_first_video_nalu
   C14Model.avc_extract_nalus_of_type C14Model.hevc_extract_nalus_of_type
